@@ -15,6 +15,7 @@ import (
 	"github.com/magisterquis/curlrevshell/lib/opshell"
 	"github.com/magisterquis/curlrevshell/verifharness/mon"
 	"github.com/magisterquis/curlrevshell/verifharness/mon/bk"
+	"github.com/magisterquis/curlrevshell/verifharness/mon/crs"
 )
 
 const Level = "exploration"
@@ -471,9 +472,25 @@ func trunc(s string) string {
 }
 
 func Run(r *mon.Run) {
-	r.Rule = "in-process sessions: one broker logging through a real slog JSON handler whose every Write is recorded; 1-4 shell generations (uni/bidirectional, four writer kinds) with lock-step input lines and output chunks made of quotes, backslashes, newlines, control bytes, U+2028/9, invalid UTF-8, JSON look-alikes and long runs, interleaved with attempts that must be refused, ended by EOF, error, cancel, failing write or failing flush; after a marker line the log is decoded strictly line by line and paired one-to-one, in order, with the deliveries recorded by the harness writers (write+flush) and the operator channel (Plain chunks); admitted streams (reached the release hook) need one connect and one disconnect record, refused ones one error record naming a reason. Real-binary sessions: the -log file of the -race binary after a pty session with fake shells is decoded strictly and the session is reconstructed from it alone and compared with ground truth. How the log file is named (engines binary and logfile, every run): by -log only, by CURLREVSHELL_LOG only, by both naming the same file (spelled differently where possible), or by both naming DIFFERENT files - then 'with -log set' is about the file -log names (doc/flags.md: the flag overrides the variable): that file must exist and hold the complete transcript, what lands in the other file is not judged; the path is absolute or relative to the program's working directory (a directory of its own, neither HOME nor the file's nor the harness's), the flag stands before, between or after the other flags and is written -log FILE, -log=FILE, --log FILE or --log=FILE; every planned naming is a floor. Log file over several runs (engine logfile): 2-4 runs of the -race binary against the SAME file (named in those ways), which before the first run is absent, empty, or holds short or long foreign content with or without a final newline; somebody else may append to it between runs and cuts it while the program runs and is at rest (to nothing, to a line boundary, in the middle of a line, copy-then-truncate); after every run and before every cut the bytes the file held before must be an unchanged prefix and what follows must be nothing but one-line JSON objects from which exactly the harness's own streams, refusals, lines and output of that stretch are reconstructed. Clients that give up early (engine aborts): in-process server on real TLS, rounds of 40 clients, each from its own loopback address, for /io, /io/, /io/x, /i/id and /o/id, which get as far as the TCP connection, a (partial) ClientHello, the finished handshake, part of the request header, the whole header, header and a chunk, header and part of a chunk, or header and the server's answer, and then reset (SO_LINGER 0), close, close the TLS session or half-close, with nobody, a bidirectional or a two-connection shell attached; once the server has finished with every connection (sentinel request answered and no connection-serving goroutine left) every client the program demonstrably handled (the operator got a notice '[address] ...' about it, a record exists, or it got the handler's answer) must have, for each direction of its request, one connect and one disconnect record or an error record naming the reason, output records holding no more than a prefix of what it sent, and no input records. Request shapes (engine shapes): in-process server on real TLS, one client at a time, each from its own loopback address, asks for /i/{id}, /o/{id} or /io(/) with every method of GET, POST, PUT, HEAD and a made-up one, and every body framing of: none, Content-Length: 0, a declared length (sent in full or in part), chunked with no chunk, chunked with data (finished or not), HTTP/1.0 without and with Content-Length, Expect: 100-continue (length or chunked; the body follows the go-ahead, the answer or the first sign that the program is busy with the request), while the broker is idle, holds the other half of a shell under the same id, holds a half under another id, or holds a whole shell (bidirectional or two connections); the client sends a complete request, waits until the program has answered or has told the operator or the log anything about its address, lets a finished output body end the stream by itself, and leaves; once no connection is being served any more, every request the program demonstrably handled (a notice '[address] ...' to the operator, a record, or the handler's 200) must have for each of its directions one connect and one disconnect record or an error-level record naming a reason, the same goes for the occupants' streams (connect + disconnect), the output records of the case hold exactly what the operator was handed as shell output and no more than a prefix of what the client sent, and no input records exist; floors per method, framing, endpoint, broker state and per (endpoint, framing) cell demonstrably handled. Big request heads (engine bighead): in-process server on real TLS, one case at a time, each client from its own loopback address: a stream request (GET /i/{id}, chunked POST /o/{id}, chunked POST /io) whose request line and header lines together are 4 KiB to 1 MiB long (five size classes: 4-16K, 16-64K, 64-256K, 256K-1M, within 4 KiB below 1 MiB) because of an id of up to 512 KiB (for /io: a path tail /io/...), a query of up to 512 KiB, 1-100 extra header lines (distinct names or one repeated name) of up to 64 KiB each, one fat header line (Proxy-Authorization, Authorization, X-Forwarded-For), a Cookie or a User-Agent of up to 64 KiB, or a mixture of these; it comes to an idle broker as the first connection of a shell (its partner, which has the same id and otherwise an ordinary head, follows), as the second one (the partner is there), while the same direction is held by somebody else (under another or the same id), while the other direction is held under another id, or while a whole shell (bidirectional or two connections, another or the same id) is attached; a request that will be refused may bring an output chunk along; to every shell a big request became part of 1-3 lines are typed (each awaited on the input side) and 1-3 output chunks are sent (each awaited on the operator channel), interleaved by the PRNG, then the output body ends, the output side leaves or the input side leaves; once no connection is being served any more the big request must have, for each of its directions, one connect and one disconnect record and no error record, or error records naming a reason and no connect record - a request that was turned away (any status, or the connection ended on it) without any record or notice is a refused stream without its error record - the partner's and the occupants' streams one connect and one disconnect record each, the input records must be exactly the typed lines, in order, under the input side's address, the output records exactly the chunks the operator was handed, in order, under the output side's address, and nothing else; floors per endpoint, outcome, kind of bigness and size class (planned and demonstrably handled), per endpoint for attached, refused and traffic-carrying cases, for the refusal reasons 'Connection already established' and 'Incorrect key', and for the largest head (within 4 KiB of 1 MiB), the longest id (512 KiB), the longest header line and the number of header lines (100). The real-binary engines (binary, logfile) send in every shell generation one request for the input side, which is taken, whose head is 16-300 KiB (a 16 KiB X-Forwarded-For, a 21 KiB id, 62 extra header lines with a 56 KiB Cookie and a 60 KiB Proxy-Authorization, or a 40 KiB User-Agent): its error record must be in the log file like that of any other refused request. distinct = distinct session scripts / log-file histories / (target, stage, ending, occupant) combinations / (method, framing, endpoint, broker state) combinations / (endpoint, outcome, kind of bigness, size class) combinations"
-	r.Assumptions = []string{"expected record data = delivered bytes with every invalid UTF-8 byte replaced by U+FFFD", "output data of the real binary is compared by concatenation because TLS/HTTP chunking is not under the client's control", "the log file is append-only JSON lines (the statement's 'log file' state): content that was in the file before a run, or that was left after somebody cut the file while the program was at rest, is not the program's to change, and records written afterwards follow it directly", "a client of the aborts engine that left neither a notice nor a record and got no answer is taken as never handled (its reset can beat the request) and nothing is demanded of it; whether a header flush actually fails is up to the kernel's timing, so that branch has a floor far below the usual count", "the aborts and shapes engines decide quiescence by looking at this process's goroutines (those started by net/http.(*Server).Serve): only these engines run an HTTP server in the harness process, one after the other", "shapes: a request for the input side that comes with a body (which nobody reads) is not watched by the HTTP library for the client's leaving, so the program cannot know before its next write that such a client is gone; where such a stream is attached alone the harness ends it the way a shell would, by the matching output side (chunked POST without a chunk), whose stream is judged like any other", "shapes: a 200 status is taken as the handler's answer (the HTTP library's own refusals are 4xx/5xx); a client that got no answer and left no notice or record is taken as never handled and nothing is demanded of it, but three quarters of the clients of every method, broker state and (endpoint, framing) cell must have been handled for the run to count", "bighead: the program does not configure how big a request head may be, so net/http's default applies: measured on the unchanged program, a head of up to 1 MiB + 4096 bytes is served and a longer one is answered 431 by net/http before any handler runs; the engine stays at or below 1 MiB (DefaultMaxHeaderBytes) and sends nothing along with a head but, for requests that will be refused, one 20-byte chunk; every such request is therefore a stream request the program gets to see in full, and one that is answered or cut off without a record was refused without an error record", "bighead: whether a big request is attached or refused is read from the log itself (connect record or error record of its address); a case in which the program attaches what it should refuse or refuses what nothing stands in the way of is reported as inconclusive (other properties judge admission), as is a case in which the operator channel got other output than the shell sent", "bighead: which reason a refusal names is counted, not judged; for /io, whose two sides are refused independently, it depends on which side comes first", "with -log and CURLREVSHELL_LOG naming different files, the statement's log is the file named by -log (the flag overrides the variable, doc/flags.md); the other file is not looked at"}
+	r.Rule = "in-process sessions: one broker logging through a real slog JSON handler whose every Write is recorded; 1-4 shell generations (uni/bidirectional, four writer kinds) with lock-step input lines and output chunks made of quotes, backslashes, newlines, control bytes, U+2028/9, invalid UTF-8, JSON look-alikes and long runs, interleaved with attempts that must be refused, ended by EOF, error, cancel, failing write or failing flush; after a marker line the log is decoded strictly line by line and paired one-to-one, in order, with the deliveries recorded by the harness writers (write+flush) and the operator channel (Plain chunks); admitted streams (reached the release hook) need one connect and one disconnect record, refused ones one error record naming a reason. Real-binary sessions: the -log file of the -race binary after a pty session with fake shells is decoded strictly and the session is reconstructed from it alone and compared with ground truth. How the log file is named (engines binary and logfile, every run): by -log only, by CURLREVSHELL_LOG only, by both naming the same file (spelled differently where possible), or by both naming DIFFERENT files - then 'with -log set' is about the file -log names (doc/flags.md: the flag overrides the variable): that file must exist and hold the complete transcript, what lands in the other file is not judged; the path is absolute or relative to the program's working directory (a directory of its own, neither HOME nor the file's nor the harness's), the flag stands before, between or after the other flags and is written -log FILE, -log=FILE, --log FILE or --log=FILE; every planned naming is a floor. Log file over several runs (engine logfile): 2-4 runs of the -race binary against the SAME file (named in those ways), which before the first run is absent, empty, or holds short or long foreign content with or without a final newline; somebody else may append to it between runs and cuts it while the program runs and is at rest (to nothing, to a line boundary, in the middle of a line, copy-then-truncate); after every run and before every cut the bytes the file held before must be an unchanged prefix and what follows must be nothing but one-line JSON objects from which exactly the harness's own streams, refusals, lines and output of that stretch are reconstructed. Clients that give up early (engine aborts): in-process server on real TLS, rounds of 40 clients, each from its own loopback address, for /io, /io/, /io/x, /i/id and /o/id, which get as far as the TCP connection, a (partial) ClientHello, the finished handshake, part of the request header, the whole header, header and a chunk, header and part of a chunk, or header and the server's answer, and then reset (SO_LINGER 0), close, close the TLS session or half-close, with nobody, a bidirectional or a two-connection shell attached; once the server has finished with every connection (sentinel request answered and no connection-serving goroutine left) every client the program demonstrably handled (the operator got a notice '[address] ...' about it, a record exists, or it got the handler's answer) must have, for each direction of its request, one connect and one disconnect record or an error record naming the reason, output records holding no more than a prefix of what it sent, and no input records. Request shapes (engine shapes): in-process server on real TLS, one client at a time, each from its own loopback address, asks for /i/{id}, /o/{id} or /io(/) with every method of GET, POST, PUT, HEAD and a made-up one, and every body framing of: none, Content-Length: 0, a declared length (sent in full or in part), chunked with no chunk, chunked with data (finished or not), HTTP/1.0 without and with Content-Length, Expect: 100-continue (length or chunked; the body follows the go-ahead, the answer or the first sign that the program is busy with the request), while the broker is idle, holds the other half of a shell under the same id, holds a half under another id, or holds a whole shell (bidirectional or two connections); the client sends a complete request, waits until the program has answered or has told the operator or the log anything about its address, lets a finished output body end the stream by itself, and leaves; once no connection is being served any more, every request the program demonstrably handled (a notice '[address] ...' to the operator, a record, or the handler's 200) must have for each of its directions one connect and one disconnect record or an error-level record naming a reason, the same goes for the occupants' streams (connect + disconnect), the output records of the case hold exactly what the operator was handed as shell output and no more than a prefix of what the client sent, and no input records exist; floors per method, framing, endpoint, broker state and per (endpoint, framing) cell demonstrably handled. Big request heads (engine bighead): in-process server on real TLS, one case at a time, each client from its own loopback address: a stream request (GET /i/{id}, chunked POST /o/{id}, chunked POST /io) whose request line and header lines together are 4 KiB to 1 MiB long (five size classes: 4-16K, 16-64K, 64-256K, 256K-1M, within 4 KiB below 1 MiB) because of an id of up to 512 KiB (for /io: a path tail /io/...), a query of up to 512 KiB, 1-100 extra header lines (distinct names or one repeated name) of up to 64 KiB each, one fat header line (Proxy-Authorization, Authorization, X-Forwarded-For), a Cookie or a User-Agent of up to 64 KiB, or a mixture of these; it comes to an idle broker as the first connection of a shell (its partner, which has the same id and otherwise an ordinary head, follows), as the second one (the partner is there), while the same direction is held by somebody else (under another or the same id), while the other direction is held under another id, or while a whole shell (bidirectional or two connections, another or the same id) is attached; a request that will be refused may bring an output chunk along; to every shell a big request became part of 1-3 lines are typed (each awaited on the input side) and 1-3 output chunks are sent (each awaited on the operator channel), interleaved by the PRNG, then the output body ends, the output side leaves or the input side leaves; once no connection is being served any more the big request must have, for each of its directions, one connect and one disconnect record and no error record, or error records naming a reason and no connect record - a request that was turned away (any status, or the connection ended on it) without any record or notice is a refused stream without its error record - the partner's and the occupants' streams one connect and one disconnect record each, the input records must be exactly the typed lines, in order, under the input side's address, the output records exactly the chunks the operator was handed, in order, under the output side's address, and nothing else; floors per endpoint, outcome, kind of bigness and size class (planned and demonstrably handled), per endpoint for attached, refused and traffic-carrying cases, for the refusal reasons 'Connection already established' and 'Incorrect key', and for the largest head (within 4 KiB of 1 MiB), the longest id (512 KiB), the longest header line and the number of header lines (100). The real-binary engines (binary, logfile) send in every shell generation one request for the input side, which is taken, whose head is 16-300 KiB (a 16 KiB X-Forwarded-For, a 21 KiB id, 62 extra header lines with a 56 KiB Cookie and a 60 KiB Proxy-Authorization, or a 40 KiB User-Agent): its error record must be in the log file like that of any other refused request. Configuration matrix (engine config): the -race binary with -log is run under each of its other documented options alone (quick: one variant each, chosen by index and seed; thorough: every variant) and under pairs of different options (quick: as many pairs as options, every option in two; thorough: every pair): -one-shell, -serve-files-from (directory, single file, empty value, a name with spaces at its edges, relative, with ../ and ./ in it, a symlink), -callback-address (one, three dozen), -callback-template (regular file, symlink, missing), -ctrl-i (.sh file, directory, missing, a name with % and spaces), -tls-certificate-cache (explicit, the default below HOME, inside the served directory), -no-timestamps, -ipv6-one-liners, -listen-address (localhost:0, 127.0.0.2:0, a zero-padded port), -prompt (with % and quotes, empty), the log named by CURLREVSHELL_LOG (alone, with -log), and -icanhazip (no network: fails at once) and -print-ctrl-i (with and without a source), with which the program ends at start-up; flags are spelled -flag value, -flag=value, --flag value or --flag=value by index and the first option's flag is given twice (another value first) in every third case. Under every configuration that leaves the program running a two-connection shell (/i/{id} + /o/{id}) and a bidirectional one (/io) are attached one after the other (with -one-shell: one run for each), each gets three typed lines (awaited by the fake shell) and three output chunks (awaited on the terminal) with quotes, backslashes, JSON look-alikes, control and non-UTF-8 bytes, a Tab/Ctrl+I insertion where -ctrl-i names a .sh file (the fake shell reads the number of bytes the program says it inserted, plus the newline), and an attempt for the input side that is refused; the shell ends by the output body ending, the output side leaving or the input side leaving; in every third case a third shell is still attached when the program is told to quit, by Ctrl+D or Ctrl+C by index (with -one-shell the program ends after its shell, at the latest at the operator's key). After the exit the log file alone must give the same streams (connect and disconnect record each), refusals (error record each), input lines in order and output as in the default configuration; a shell request that the program answered without the shell ever becoming ready must have its error records naming a reason (or connect records): a stream of which the log says nothing is a refused stream without its error record. With an option that ends the program at start-up the log file, if any, must be JSON lines without stream records. Floors: every planned case, option (alone and in a pair at least), variant, pair, spelling, flag given twice, both kinds of shell under every option, insertions, quits with a shell attached. Shutdowns with a stream that cannot end at once (engine stall, 6 / 18 cases next to the other engines): a two-connection or bidirectional shell whose input side (receive buffer of 4 KiB) reads two lines and then stops reading, under one more option of the matrix, and then a Tab insertion of a 24-40 MiB -ctrl-i file, or 1500 typed lines of 4 KiB (more than the connection buffers hold, fewer on top than the program's queue of 1024), or 0.6-4 MiB of output sent at once (with the terminal read or not read any more); then Ctrl+D or Ctrl+C; the client hangs up 3-8 s after the key (and the terminal is read again); when the program has exited (or, if it is still there 20 s after the hang-up, which is not this property's business, when the records have come) the log must have one connect and one disconnect record for each of the two streams, the input records must be the two lines the shell read followed by no more than the lines typed afterwards, in order (never the insertion, which the shell did not read), and the output records a prefix of what was sent; floors per stuffing, shell kind and key, and for cases in which the program was demonstrably still waiting for the stream when the client hung up. distinct = distinct session scripts / log-file histories / (target, stage, ending, occupant) combinations / (method, framing, endpoint, broker state) combinations / (endpoint, outcome, kind of bigness, size class) combinations / configuration scripts / stalled-shutdown scripts"
+	r.Assumptions = []string{"expected record data = delivered bytes with every invalid UTF-8 byte replaced by U+FFFD", "output data of the real binary is compared by concatenation because TLS/HTTP chunking is not under the client's control", "the log file is append-only JSON lines (the statement's 'log file' state): content that was in the file before a run, or that was left after somebody cut the file while the program was at rest, is not the program's to change, and records written afterwards follow it directly", "a client of the aborts engine that left neither a notice nor a record and got no answer is taken as never handled (its reset can beat the request) and nothing is demanded of it; whether a header flush actually fails is up to the kernel's timing, so that branch has a floor far below the usual count", "the aborts and shapes engines decide quiescence by looking at this process's goroutines (those started by net/http.(*Server).Serve): only these engines run an HTTP server in the harness process, one after the other", "shapes: a request for the input side that comes with a body (which nobody reads) is not watched by the HTTP library for the client's leaving, so the program cannot know before its next write that such a client is gone; where such a stream is attached alone the harness ends it the way a shell would, by the matching output side (chunked POST without a chunk), whose stream is judged like any other", "shapes: a 200 status is taken as the handler's answer (the HTTP library's own refusals are 4xx/5xx); a client that got no answer and left no notice or record is taken as never handled and nothing is demanded of it, but three quarters of the clients of every method, broker state and (endpoint, framing) cell must have been handled for the run to count", "bighead: the program does not configure how big a request head may be, so net/http's default applies: measured on the unchanged program, a head of up to 1 MiB + 4096 bytes is served and a longer one is answered 431 by net/http before any handler runs; the engine stays at or below 1 MiB (DefaultMaxHeaderBytes) and sends nothing along with a head but, for requests that will be refused, one 20-byte chunk; every such request is therefore a stream request the program gets to see in full, and one that is answered or cut off without a record was refused without an error record", "bighead: whether a big request is attached or refused is read from the log itself (connect record or error record of its address); a case in which the program attaches what it should refuse or refuses what nothing stands in the way of is reported as inconclusive (other properties judge admission), as is a case in which the operator channel got other output than the shell sent", "bighead: which reason a refusal names is counted, not judged; for /io, whose two sides are refused independently, it depends on which side comes first", "with -log and CURLREVSHELL_LOG naming different files, the statement's log is the file named by -log (the flag overrides the variable, doc/flags.md); the other file is not looked at", "config: the property's oracle does not depend on the configuration; which options the program accepts and what they do otherwise is not judged; a run in which the binary does not start or does not exit cleanly is inconclusive", "config: a shell request counts as handled without becoming ready only when the HTTP answer to its input side arrived while no 'Shell is ready' notice had been shown (the answer to an attached input side comes with its first line only)", "stall: whether a write to a client that stopped reading really blocks is up to the kernel's buffer sizes; it is observed (the program still there when the client hangs up), floored over the whole engine and never part of the verdict; the verdict is read from the log file after the program's exit only", "stall: the unchanged program may not exit at all when it is told to quit while a lot of shell output is queued for the terminal (iobroker's notice to the operator blocks on the full output queue after the disconnect record was written); termination is not this property's business: such a case is judged on the log once the records are there, and counted (stall_program_did_not_exit)"}
 	n := r.N(300, 6000)
+	// the stalled shutdowns need real time (3-8 s each): they run next to the
+	// other engines and are waited for at the end
+	waitStalls := func() {}
+	if r.WantEngine("stall") {
+		done := make(chan func(), 1)
+		go func() {
+			bin, err := crs.Build(r.Work, "")
+			if err != nil {
+				r.Inconclusive("cannot build the binary: " + err.Error())
+				done <- func() {}
+				return
+			}
+			done <- stallShutdowns(r, bin)
+		}()
+		waitStalls = func() { (<-done)() }
+	}
 	if r.WantEngine("session") {
 		mon.Parallel(n, runtime.NumCPU(), func(i int) {
 			if r.Want("session", i) {
@@ -501,6 +518,12 @@ func Run(r *mon.Run) {
 	if r.WantEngine("logfile") {
 		logFileRuns(r)
 	}
+	if r.WantEngine("config") {
+		r.Logf("config: the binary under its other options")
+		configEngine(r)
+		r.Logf("config done")
+	}
+	waitStalls()
 	r.Floor("json_lines", 2000)
 	r.Floor("input_deliveries", 500)
 	r.Floor("output_deliveries", 500)
